@@ -443,6 +443,7 @@ func (s *Server) handleConnReceiver(module *Module, crd *rsyncwire.CountingReade
 			Verbose:  opts.Verbose(),
 			Progress: opts.Progress(),
 
+			Recurse:          opts.Recurse(),
 			DeleteMode:       opts.DeleteMode(),
 			PreserveGid:      opts.PreserveGid(),
 			PreserveUid:      opts.PreserveUid(),
